@@ -1259,10 +1259,12 @@ def _run_allclose(
                 ),
             )
 
+        expected_cmp, got_cmp = _comparison_arrays(expected_arr, got_arr)
+
         if _is_floating_dtype(expected_arr) or _is_floating_dtype(got_arr):
             if not np.allclose(
-                expected_arr,
-                got_arr.astype(expected_arr.dtype, copy=False),
+                expected_cmp,
+                got_cmp,
                 rtol=rtol,
                 atol=atol,
                 equal_nan=True,
@@ -1274,9 +1276,7 @@ def _run_allclose(
                     f"Output {idx} mismatch (max abs diff {max_diff}, rtol={rtol}, atol={atol})",
                 )
         else:
-            if not np.array_equal(
-                expected_arr, got_arr.astype(expected_arr.dtype, copy=False)
-            ):
+            if not np.array_equal(expected_cmp, got_cmp):
                 return (False, f"Output {idx} mismatch (non-floating tensors differ)")
 
     return True, "Outputs match within tolerance."
@@ -1377,6 +1377,25 @@ def _to_numpy_output(value: Any) -> np.ndarray:
     if isinstance(value, np.ndarray):
         return value
     return cast(np.ndarray, np.asarray(value))
+
+
+def _comparison_arrays(
+    expected_arr: np.ndarray, got_arr: np.ndarray
+) -> Tuple[np.ndarray, np.ndarray]:
+    """Bring both arrays to a common dtype that loses information on neither side.
+
+    Casting the runtime output to the JAX dtype first would truncate a float
+    result against an integer expectation (or wrap int64 into int32) and hide a
+    genuine mismatch.
+    """
+    try:
+        common = np.result_type(expected_arr.dtype, got_arr.dtype)
+    except TypeError:
+        return expected_arr, got_arr.astype(expected_arr.dtype, copy=False)
+    return (
+        expected_arr.astype(common, copy=False),
+        got_arr.astype(common, copy=False),
+    )
 
 
 def _is_floating_dtype(arr: np.ndarray) -> bool:
